@@ -260,6 +260,8 @@ static J gen_c07 (uint64_t seed, uint64_t idx)
 		s ["frames"] = (long long) n ; N += n ; segs.push (s) ;
 	}
 	cfg ["segments"] = segs ;
+	// dither on write only acts on 8-bit encodings; it is a setting of the handle like the others, identical in every schedule
+	if ((f.sub == SF_FORMAT_PCM_S8 || f.sub == SF_FORMAT_PCM_U8 || f.sub == SF_FORMAT_DPCM_8) && g.rng.chance (0.3)) cfg ["dither"] = 1 ;
 	if (g.rng.chance (0.3)) { J strs = J::arr () ; J s = J::obj () ; s ["type"] = SF_STR_TITLE ; s ["len"] = (long long) g.rng.range (1, 40) ; s ["stream"] = (long long) g.rng.below (100) ; strs.push (s) ; cfg ["strings"] = strs ; }
 	// schedules: partitions of every segment
 	int nsched = (int) g.rng.range (2, 5) ;
@@ -299,6 +301,7 @@ static J c07_concrete (const J &plan, size_t sidx, int64_t clock)
 	for (auto &s : cfg.at ("strings").a) { J so = mkop ("setstr") ; so ["type"] = s.geti ("type") ; so ["len"] = s.geti ("len") ; so ["stream"] = s.geti ("stream") ; ops.push (so) ; }
 	const J &sch = cfg.at ("schedules") [sidx] ;
 	if (sch.geti ("auto")) { J c = mkop ("cmd") ; c ["id"] = "auto_header" ; c ["arg"] = 1 ; ops.push (c) ; }
+	if (cfg.geti ("dither", 0)) { J c = mkop ("cmd") ; c ["id"] = "dither" ; ops.push (c) ; }		// same setting in every schedule
 	for (auto &c : sch.at ("calls").a)
 	{	J w = mkop ("write") ; w ["T"] = cfg.at ("segments") [(size_t) c.geti ("seg")].gets ("T") ; w ["n"] = c.geti ("n") ; if (c.geti ("fr")) w ["fr"] = 1 ;
 		ops.push (w) ;
